@@ -159,7 +159,7 @@ pub fn to_seqs(reads: &[Read]) -> Vec<(DnaBytes, Exts, u8)> {
 }
 
 /// filter_kmers with the shipped CountFilterSet; returns (k-mer string, exts byte, labels) in hash order.
-pub fn real_filter<K: Kmer>(reads: &[Read], stranded: bool, min_count: usize) -> BoomHashMap2<K, Exts, Vec<u8>> {
+pub fn real_filter<K: Kmer>(reads: &[Read], stranded: bool, min_count: usize) -> Result<BoomHashMap2<K, Exts, Vec<u8>>, String> {
     let seqs = to_seqs(reads);
     let (bm, _) = filter_kmers::<K, DnaBytes, u8, Vec<u8>, CountFilterSet<u8>>(
         &seqs,
@@ -168,7 +168,38 @@ pub fn real_filter<K: Kmer>(reads: &[Read], stranded: bool, min_count: usize) ->
         false,
         1,
     );
-    bm
+    // the two shipped summarizers must agree on the key set and on every extension set
+    // (thresholds used by the graph checks are far below the 65 535 count cap, where they coincide by definition)
+    let (bc, _) = filter_kmers::<K, DnaBytes, u8, u16, debruijn::filter::CountFilter>(
+        &seqs,
+        &Box::new(debruijn::filter::CountFilter::new(min_count)),
+        stranded,
+        false,
+        1,
+    );
+    if bc.len() != bm.len() {
+        return Err(format!(
+            "CountFilter retains {} k-mers, CountFilterSet {} (same threshold {})",
+            bc.len(),
+            bm.len(),
+            min_count
+        ));
+    }
+    for (k, e, _) in bm.iter() {
+        match bc.get(k) {
+            Some((e2, _)) if e2.val == e.val => {}
+            Some((e2, _)) => {
+                return Err(format!(
+                    "k-mer {}: CountFilter reports extensions {:#04x}, CountFilterSet {:#04x}",
+                    to_ascii(&kseq(k)),
+                    e2.val,
+                    e.val
+                ))
+            }
+            None => return Err(format!("k-mer {} retained by CountFilterSet but not by CountFilter", to_ascii(&kseq(k)))),
+        }
+    }
+    Ok(bm)
 }
 
 /// Compare the real table's keys/extensions with the model's and attach model payloads:
@@ -236,7 +267,7 @@ pub fn build_base<K: Kmer, P: PayKind>(
     let k = K::k();
     let mt = model::build_table(reads, k, stranded);
     let pt: PTable<P> = ptable(&mt, min_count);
-    let bm = real_filter::<K>(reads, stranded, min_count);
+    let bm = real_filter::<K>(reads, stranded, min_count)?;
     let (keys, exts, data) = attach_payloads::<K, P>(&bm, &pt, stranded)?;
     let spec = P::spec();
     match entry {
